@@ -8,6 +8,7 @@ import time
 
 HERE = os.path.dirname(os.path.abspath(__file__))
 ROOT = os.path.dirname(HERE)
+EVID = os.environ.get("VERIF_EVIDENCE_DIR", os.path.join(ROOT, "evidence"))
 sys.path.insert(0, ROOT)
 sys.setrecursionlimit(20000)
 
@@ -60,11 +61,11 @@ def main():
     seed = int(os.environ.get("VERIF_SEED", "0"))
     t0 = time.time()
     prop = a.prop
-    os.makedirs(os.path.join(ROOT, "evidence", "work"), exist_ok=True)
+    os.makedirs(os.path.join(EVID, "work"), exist_ok=True)
     if a.replay:
         rec = json.load(open(os.path.join(ROOT, a.replay) if not os.path.isabs(a.replay) else a.replay))
         prop = rec["property_id"]
-        out = os.path.join(ROOT, "evidence", "work", prop + ".replay.json")
+        out = os.path.join(EVID, "work", prop + ".replay.json")
         p = run_native(prop, rec.get("tier", "quick"), rec.get("seed", 0), out)
         p.communicate()
         nat = json.load(open(out))
@@ -75,7 +76,7 @@ def main():
             sys.exit(1)
         print("REPLAY did not reproduce on this tree (obligation %s)" % rec.get("obligation"))
         sys.exit(0)
-    nat_out = os.path.join(ROOT, "evidence", "work", prop + ".native.json")
+    nat_out = os.path.join(EVID, "work", prop + ".native.json")
     if os.path.exists(nat_out):
         os.unlink(nat_out)
     pn = None if a.no_native else run_native(prop, a.tier, seed, nat_out)
